@@ -388,7 +388,7 @@ pub fn scen_prop_hist(ctx: &Ctx) -> i32 {
             "C14" => {
                 p.w = [20, 10, 8, 3, 2, 1, 2, 0, 0, 0, 0, 30, 0, 1];
                 // batches of up to 200 keys, a few far larger ones (bulk_get / bulk_delete only)
-                p.bulk_max = if i % 3 == 0 { 3000 } else { 200 };
+                p.bulk_max = if i % 3 == 0 && i < 96 { 3000 } else { 200 };
             }
             "C17" => {
                 p.w = [40, 5, 18, 0, 1, 0, 1, 12, 0, 0, 0, 2, 0, 0];
